@@ -207,6 +207,11 @@ pub struct CheckOutcome {
     pub exit: i32,
 }
 
+/// which cargo feature set of the library this binary was built with (set by ./check)
+fn build_name() -> String {
+    if cfg!(feature = "lib-testable") { "lib-testable".into() } else { "default".into() }
+}
+
 fn profile_name() -> String {
     std::env::var("PKSIM_PROFILE").unwrap_or_else(|_| "checked".into())
 }
@@ -288,6 +293,8 @@ pub fn check(fam: &'static dyn Family, tier: Tier, workers: usize) -> CheckOutco
             "seed": master,
             "original_index": v.scenario.index,
             "minimisation_candidates_tried": tried,
+            "profile": profile_name(),
+            "build": build_name(),
             "scenario": min_scn,
             "original_scenario": v.scenario,
         });
@@ -343,6 +350,7 @@ pub fn check(fam: &'static dyn Family, tier: Tier, workers: usize) -> CheckOutco
         "harness_errors": harness,
         "workers": workers,
         "profile": profile_name(),
+        "library_features": build_name(),
     });
     let evidence = serde_json::json!({
         "property_id": info.id,
